@@ -17,7 +17,9 @@ CLAIM = {
           'obj_history_pure (any history of enter / exit / re-enter / fetch / pickle round trip / re-scan / sequential '
           'iteration on one or two index objects sharing a file object answers as a state-free run: a function of the '
           'bytes alone), reindex_pure, obj_entries_good, reindex_encode (every enter in every history of a conformant '
-          'file yields one entry per record). Every run ties the '
+          'file yields one entry per record), multi_object_pure (any number of objects alive at once, on the same or '
+          'different files: each object answers as the state-free run of its own operations on its own file; operations '
+          'of the other objects are no-ops for it). Every run ties the '
           'model to the source: files from the Lean spec encoder, LogicalRecordIndex on a read-counting BytesIO, histories '
           'of 20-200 fetches on ONE index object (repetitions, permutations, runs, reversed order) over an offset/length '
           'grid (segment boundaries +-1, beyond the end, negative lengths), plus a malformed stream. Proof is the right '
@@ -37,6 +39,11 @@ RULE = ('files: random storage unit label + 1..12 records (payload 0..3 visible 
         'length). Object histories: per file 12..70 operations (E enter, X exit, F fetch, S re-scan, I sequential read, P '
         'pickle round trip on a path-based index) on index objects A and B over one file object; after EVERY step every '
         'entered index must hold exactly one entry per record with the layout positions; distinct by (file, operation sequence). '
+        'Several objects: 1-2 files, 2-4 readers / indexes alive at once (a quarter sharing one file object), '
+        'generators consumed lazily one item at a time (sequential read, position scan, visible records; two lazy readers '
+        'interleaved) with fetches through other objects in between, aimed at other visible records than the one a '
+        'suspended reader is in; every item and fetch must be that of the own file of the object, every index is checked '
+        'after every step. '
         'Malformed files / bogus positions are correspondence only.')
 ASSUMPTIONS = ['io.BytesIO read/seek/tell are modelled as list drop/take with an explicit cursor',
                'the F5 fix is present in get_file_logical_data (index_to = index_from + (length - bytes_read))',
@@ -497,6 +504,182 @@ def stage_obj(ctx, n_mem, n_path):
         sul, recs, lay, ops, path_based, outs = done[0]
         ctx.sample({'op': 'object', 'ops': ops_request(ops[:12]), 'results': [o[:60] for o in outs[:12]], 'records': len(recs)})
 
+
+# ------------------------------------------------------------------ several objects alive at once, lazily stepped generators
+
+def expected_lists(records, layout):
+    """per file, from the generator alone: L records, P index entries, V visible records, and the visible record a lazy
+    sequential reader is in after it yielded record j"""
+    tab = rp66.segment_table(records, layout)
+    L = [f"{'E' if e else 'I'},{t},{hx(p)}" for e, t, p in records]
+    P = [f"{x['vr_pos']},{x['lrsh_pos']},{rp66.attr_byte(e, True, len(ds) == 1, ds[0])},{t},{sum(q[2] for q in x['segs'])}"
+         for (e, t, _), ds, x in zip(records, layout, tab)]
+    vrs = []
+    for x in tab:
+        for v in x['vrs']:
+            if v not in vrs: vrs.append(v)
+    return {'L': L, 'P': P, 'V': [f'{a},{b}' for a, b in vrs], 'tab': tab, 'last_vr': [x['vrs'][-1] for x in tab]}
+
+
+def gen_multi(rng):
+    """1-2 files, 2-4 objects (lazy readers R = FileRead, indexes I = LogicalRecordIndex; some share one file object), and
+    an interleaving: `N` = next() on a reader's lazily consumed generator (L iter_logical_records, P
+    iter_logical_record_positions, V iter_visible_records), `F` = fetch through an index, preferably a record lying in
+    other visible records than the one a suspended reader is in."""
+    files = []
+    for _ in range(rng.choice([1, 1, 2])):
+        while True:
+            recs = rp66.random_records(rng, rng.randint(2, 9), rng.choice([10, 40, 120]))
+            lay = rp66.random_layout(rng, recs, vr_cap=rng.choice([20, 24, 36, 64, 128]), p_flags=rng.choice([0.0, 0.3]),
+                                     small_cuts=rng.random() < 0.4)
+            if sum(rp66.seg_len(d) for ds in lay for d in ds) < 2500: break
+        files.append((rp66.random_sul(rng), recs, lay))
+    kinds = rng.choice(['RI', 'RI', 'RRI', 'RII', 'RR', 'RIRI', 'IRI'])
+    objs = []
+    for j, k in enumerate(kinds):
+        fi = rng.randrange(len(files))
+        share = next((q for q in range(j) if objs[q][1] == fi), None) if rng.random() < 0.25 else None
+        objs.append((k, fi, share))
+    exp = [expected_lists(r, l) for _, r, l in files]
+    at = {}                                           # reader -> (generator kind, items yielded so far)
+    steps = []
+    readers = [j for j, o in enumerate(objs) if o[0] == 'R']; indexes = [j for j, o in enumerate(objs) if o[0] == 'I']
+    for _ in range(rng.randint(10, 60)):
+        if indexes and rng.random() < 0.5:
+            o = rng.choice(indexes); fi = objs[o][1]; recs = files[fi][1]
+            cand = list(range(len(recs)))
+            live = [(r, g) for r, g in at.items() if g[0] == 'L' and 0 < g[1] <= len(files[objs[r][1]][1])]
+            if live and rng.random() < 0.75:          # land somewhere else than where a suspended reader is
+                r, g = rng.choice(live); cur = exp[objs[r][1]]['last_vr'][g[1] - 1]
+                far = [k for k in cand if cur not in exp[fi]['tab'][k]['vrs']]
+                cand = far or cand
+            k = rng.choice(cand); Lk = len(recs[k][2])
+            off, ln = (0, -1) if rng.random() < 0.5 else (rng.randint(0, Lk), rng.choice([-1, 0, 1, Lk, rng.randint(0, Lk + 2)]))
+            steps.append(('F', o, k, off, ln))
+        elif readers:
+            o = rng.choice(readers)
+            g = at.get(o) or (rng.choice('LLLPV'), 0)
+            steps.append(('N', o, g[0]))
+            n = len(exp[objs[o][1]][g[0]])
+            at[o] = None if g[1] >= n else (g[0], g[1] + 1)
+            if at[o] is None: del at[o]
+    return files, objs, steps
+
+
+def play_multi(files, objs, steps):
+    """run the interleaving on the implementation; ([canonical string per step], (i, detail) or None).  Oracle
+    (implementation alone): every item a lazy generator yields is the next item of ITS file, it ends exactly after the
+    last one, every fetch is the payload slice of ITS file, and after every step every index holds exactly its file's
+    entries."""
+    File, Index = _impl()
+    exp = [expected_lists(r, l) for _, r, l in files]
+    bts = [rp66.encode_rp66(*f) for f in files]
+    bios, inst = [], []
+    for k, fi, share in objs:
+        bio = bios[share] if share is not None else io.BytesIO(bts[fi])
+        bios.append(bio)
+        x = File.FileRead(bio) if k == 'R' else Index.LogicalRecordIndex(bio)
+        x.__enter__(); inst.append(x)
+    gens, outs = {}, []
+    canon = {'L': lambda r: f"{'E' if r.lr_is_eflr else 'I'},{r.lr_type},{hx(r.logical_data.bytes)}",
+             'P': lambda e: ents([e]), 'V': lambda v: f'{v.position},{v.length}'}
+    for i, st in enumerate(steps):
+        o = st[1]; fi = objs[o][1]; d = None
+        try:
+            if st[0] == 'N':
+                if o not in gens:
+                    fr = inst[o]
+                    gens[o] = [st[2], 0, {'L': fr.iter_logical_records, 'P': fr.iter_logical_record_positions,
+                                          'V': fr.iter_visible_records}[st[2]]()]
+                g = gens[o]; want = exp[fi][g[0]]
+                try:
+                    s = canon[g[0]](next(g[2])); g[1] += 1
+                    w = want[g[1] - 1] if g[1] <= len(want) else 'end'
+                except StopIteration:
+                    s = 'end'; w = want[g[1]] if g[1] < len(want) else 'end'; del gens[o]
+                if s != w:
+                    d = f'item {g[1] if s != "end" else "after the last"} of the lazily consumed {g[0]} generator of object {o} is {s[:80]}, its file has {w[:80]}'
+            else:
+                _, _, k, off, ln = st
+                p = files[fi][1][k][2]
+                got = inst[o].get_file_logical_data(k, off, ln).logical_data.bytes
+                s = 'ok ' + hx(got)
+                if got != (p[off:] if ln < 0 else p[off:off + ln]):
+                    d = f'fetch of record {k} (offset {off}, length {ln}) through object {o} returned {len(got)} bytes {got[:16].hex()}.., written slice differs'
+        except Exception as e:
+            s = 'err:' + type(e).__name__; d = f'raised {e!r}'
+            gens.pop(o, None)
+        outs.append(s)
+        if d is None:
+            for j, (k, fj, _) in enumerate(objs):
+                if k == 'I':
+                    d = index_oracle(inst[j].lr_pos_desc, files[fj][1], exp[fj]['tab'])
+                    if d: d = f'index object {j}: {d}'; break
+        if d: return outs, (i, f'step #{i} {st}: {d}')
+    return outs, None
+
+
+def multi_case(files, objs, steps):
+    return {'op': 'multi', 'files': [mk_case(s, r, l, []) for s, r, l in files], 'objects': [list(o) for o in objs],
+            'steps': [list(s) for s in steps]}
+
+
+def un_multi(c):
+    return ([un_case(f)[:3] for f in c['files']], [tuple(o) for o in c['objects']], [tuple(s) for s in c['steps']])
+
+
+def shrink_multi(files, objs, steps, i, detail):
+    steps = list(steps[:i + 1]); j = 0; tries = 0
+    while j < len(steps) - 1 and tries < 120:
+        cand = steps[:j] + steps[j + 1:]; tries += 1
+        try: r = play_multi(files, objs, cand)[1]
+        except Exception: r = None
+        if r: steps, detail = cand, r[1]
+        else: j += 1
+    return multi_case(files, objs, steps), detail
+
+
+def stage_multi(ctx, n):
+    rng = ctx.rng; done = []; req2, req1 = [], []
+    for _ in range(n):
+        files, objs, steps = gen_multi(rng)
+        outs, bad = play_multi(files, objs, steps)
+        ctx.count('oracle_cases', len(outs)); ctx.count('multi_histories'); ctx.count('multi_steps', len(outs))
+        ctx.count('multi_objects', len(objs)); ctx.count('multi_two_files', len(files) == 2)
+        ctx.count('multi_lazy_steps', sum(1 for s in steps[:len(outs)] if s[0] == 'N'))
+        if bad:
+            case, detail = shrink_multi(files, objs, steps, *bad) if ctx.stats['oracle_failures'] < 6 else (multi_case(files, objs, steps[:bad[0] + 1]), bad[1])
+            ctx.fail(case, detail)
+        else:
+            ctx.nontriv(('multi', sha(b''.join(rp66.encode_rp66(*f) for f in files)), str(steps)))
+        for (sul, recs, lay) in files:
+            b = rp66.encode_rp66(sul, recs, lay)
+            req2.append('positions ' + b.hex()); req1.append('rdr ' + b.hex() + ' V*;L*')
+        done.append((files, objs, steps, outs))
+    m2 = iter(ctx.lean(req2)); m1 = iter(ctx.lean(req1, name='C01'))
+    for files, objs, steps, outs in done:
+        mod = []
+        for f in files:
+            pz = next(m2); vl = next(m1).split('|')
+            mod.append({'P': pz.split(' ')[1].split(';') if pz.startswith('ok ') else [pz],
+                        'V': vl[0].split(' ')[1].split(';') if vl[0].startswith('ok ') else [vl[0]],
+                        'L': (vl[1].split(' ')[1].split(';') if vl[1].startswith('ok ') else [vl[1]]) if len(vl) > 1 else ['?']})
+        cnt = {}
+        for i, (st, o) in enumerate(zip(steps, outs)):
+            fi = objs[st[1]][1]
+            if st[0] == 'N':
+                g = cnt.setdefault(st[1], [st[2], 0]); lst = mod[fi][g[0]]
+                m = lst[g[1]] if g[1] < len(lst) else 'end'
+                g[1] += 1
+                if m == 'end' or o == 'end' or o.startswith('err:'): cnt.pop(st[1], None)
+            else:
+                p = files[fi][1][st[2]][2]; off, ln = st[3], st[4]
+                m = 'ok ' + hx(p[off:] if ln < 0 else p[off:off + ln])      # the model's fetch is get_slice: checked per file by the fetch stream
+            ctx.corr('multi', None if o == m else multi_case(files, objs, steps[:i + 1]), o[:300], m[:300])
+    if done:
+        files, objs, steps, outs = done[0]
+        ctx.sample({'op': 'multi', 'objects': [list(o) for o in objs], 'steps': [list(s) for s in steps[:10]], 'results': [o[:40] for o in outs[:10]]})
+
 # ------------------------------------------------------------------ malformed stream (correspondence only)
 
 def damaged(rng, b, tab):
@@ -630,6 +813,7 @@ def run(ctx):
                             'offset': hist[i][1], 'length': hist[i][2], 'position_in_history': i, 'result_and_bytes_read': outs[i]})
                 shown += 1
     stage_obj(ctx, ctx.n(160, 1600), ctx.n(50, 500))
+    stage_multi(ctx, ctx.n(400, 4000))
     malformed(ctx, ctx.n(25, 250))
     if ctx.tier == 'thorough':
         grid = gen_grid(ctx, 300)
@@ -641,6 +825,12 @@ def run(ctx):
 
 def replay(ctx, rec):
     case = rec.get('case') or {}
+    if case.get('op') == 'multi':
+        files, objs, steps = un_multi(case)
+        outs, bad = play_multi(files, objs, steps)
+        if bad:
+            return False, bad[1]
+        return True, f'{len(steps)} interleaved step(s) on {len(objs)} objects over {len(files)} file(s): every yielded item and fetch is that of its own file'
     if case.get('op') == 'object' and case.get('records'):
         sul, recs, lay, _ = un_case(case)
         ops = [tuple(o) for o in case['ops']]
